@@ -18,7 +18,7 @@ func (e *Engine) VerifyFunc(fn *ssa.Function, con *Contract) (g *Gen, err error)
 		reach: map[*ssa.BasicBlock]string{}, out: map[*ssa.BasicBlock]*State{},
 		edge: map[[2]int]string{}, env: map[string]*Val{}, strs: map[string]int{},
 		ghostSorts: map[string]string{"$brk": "Int"}, callSelCount: map[string]int{},
-		safety:    map[string]bool{"bounds": true, "div": true, "assert": true, "panic": true, "mapwrite": true, "makeslice": true},
+		safety:    map[string]bool{"bounds": true, "div": true, "assert": true, "panic": true, "mapwrite": true, "makeslice": true, "nilcall": true},
 		selectors: map[string]bool{},
 	}
 	g.fnName = e.funcDisplayName(fn, con)
@@ -428,7 +428,9 @@ func (g *Gen) execInstr(in ssa.Instruction) error {
 		elem := x.Type().(*types.Pointer).Elem()
 		ref := g.alloc(s)
 		v := &Val{T: ref, Ty: x.Type()}
-		if isStruct(elem) {
+		if at, ok := elem.Underlying().(*types.Array); ok && isStruct(at.Elem()) {
+			g.zeroElems(s, ref, at.Elem())
+		} else if isStruct(elem) {
 			g.storeStruct(s, ref, elem, g.st.zero(elem))
 		} else {
 			v.LV = g.locOfPtr(&Val{T: ref}, elem)
@@ -443,7 +445,7 @@ func (g *Gen) execInstr(in ssa.Instruction) error {
 		if sub != "" {
 			g.vals[x] = &Val{T: sub, Ty: x.Type(), LV: loc}
 		} else {
-			g.vals[x] = &Val{T: sx("fld", g.fieldID(st, st.Underlying().(*types.Struct).Field(x.Field).Name()), p.T), Ty: x.Type(), LV: loc}
+			g.vals[x] = &Val{T: sx("fld", g.fieldID(st, fieldName(st.Underlying().(*types.Struct), x.Field)), p.T), Ty: x.Type(), LV: loc}
 		}
 	case *ssa.Field:
 		sv := g.val(x.X)
@@ -843,7 +845,7 @@ func (g *Gen) forEachScalarField(t types.Type, f func(path []string, comp string
 			g.forEachScalarField(fld.Type(), f)
 		case isArray(fld.Type()):
 		default:
-			f(nil, fieldComp(t, fld.Name()), fld.Type())
+			f(nil, fieldComp(t, fieldName(u, i)), fld.Type())
 		}
 	}
 }
@@ -1051,6 +1053,6 @@ func (g *Gen) checkEnsures(results []*Val, pos token.Pos, site string) {
 		g.oblige("post", label+":"+site, t, pos, cl.Src)
 	}
 	if g.con.HasMod {
-		g.checkFrame(pos, site)
+		g.checkFrame(env, pos, site)
 	}
 }
